@@ -145,6 +145,46 @@ def qmat_ref(q):
     return M
 
 
+INV2 = (P + 1) // 2
+
+
+def fake_cs(x):
+    """the stand-in (cos x, sin x) = ((1-x^2)/(1+x^2), 2x/(1+x^2)) used over the prime field; None if 1+x^2 = 0"""
+    d = (1 + x * x) % P
+    if d == 0:
+        return None
+    i = inv(d)
+    return ((1 - x * x) * i % P, 2 * x * i % P)
+
+
+def rodrigues(u, c, s_):
+    """I + sin(t) [u]x + (1 - cos(t)) [u]x^2 for a unit vector u, as a 4x4 homogeneous matrix"""
+    K = [[0, -u[2], u[1]], [u[2], 0, -u[0]], [-u[1], u[0], 0]]
+    K2 = mmul(K, K)
+    M = ident(4)
+    for i in range(3):
+        for j in range(3):
+            M[i][j] = ((1 if i == j else 0) + s_ * K[i][j] + (1 - c) * K2[i][j]) % P
+    return M
+
+
+def axis_rot(ax, c, s_):
+    """textbook right-handed rotation about coordinate axis ax (0,1,2) with the given cos, sin"""
+    M = ident(4)
+    i1, i2 = (ax + 1) % 3, (ax + 2) % 3
+    M[i1][i1], M[i1][i2], M[i2][i1], M[i2][i2] = c, -s_ % P, s_, c
+    return M
+
+
+def unit_vec(rng):
+    while True:
+        u = [rf(rng) for _ in range(3)]
+        r = sq(sum(x * x for x in u) % P)
+        if r:
+            iv = inv(r)
+            return [x * iv % P for x in u]
+
+
 def flat(A):
     return [x % P for r in A for x in r]
 
@@ -207,6 +247,31 @@ def reference(line):
         return fmt([v[i] + v[3 + i] * v[6] - v[3 + i] for i in range(3)])
     if op == "v3len2" and n == 3:
         return str(sum(x * x for x in v) % P)
+    if op in ("m4rotaa", "m4rotv", "qfaau") and n in (3, 4):
+        ax = v[:3]
+        l2 = sum(x * x for x in ax) % P
+        if op == "qfaau":
+            cs = fake_cs(v[3] * INV2 % P)
+            if cs is None:
+                return None
+            return fmt([cs[0]] + [cs[1] * x for x in ax])      # (cos(t/2), sin(t/2) u): the definition of the axis-angle quaternion
+        mroot = pow(l2, (P + 1) // 4, P)
+        if mroot == 0 or mroot * mroot % P != l2:
+            return None          # zero axis, or |axis|^2 is not a square in the field: no rotation is defined
+        ang = v[3] if op == "m4rotaa" else mroot
+        cs = fake_cs(ang * INV2 % P)
+        if cs is None:
+            return None
+        im = inv(mroot)
+        return fmt(flat(rodrigues([x * im % P for x in ax], (cs[0] * cs[0] - cs[1] * cs[1]) % P, 2 * cs[0] * cs[1] % P)))
+    if op == "m4rote" and n == 6:
+        M = ident(4)
+        for ang, axn in zip(v[:3], v[3:]):
+            cs = fake_cs(ang)
+            if cs is None:
+                return None
+            M = mmul(M, axis_rot(axn % 3, cs[0], cs[1]))
+        return fmt(flat(M))
     if op == "qmul" and n == 8:
         return fmt(qmul_ref(v[:4], v[4:]))
     if op == "qconj" and n == 4:
@@ -391,6 +456,27 @@ def gen_exact(rng, tier):
                       "m4mul %s %s" % (fmt(flat(qmat_ref(p))), fmt(flat(qmat_ref(q)))) if (sum(x * x for x in p) % P == 1 and sum(x * x for x in q) % P == 1) else "qlen2 " + P_,
                       "qconj " + P_, "qinv " + P_, "qinv " + Q_, "qlen2 " + P_, "qdot %s %s" % (P_, Q_), "qrotrt " + P_, "qrotrt " + Q_,
                       "m4rot " + fmt(flat(qmat_ref(p))) if sum(x * x for x in p) % P == 1 else "qlen2 " + Q_])
+    # axis-angle conversions, executed exactly with the rational stand-ins for cos/sin/acos (see harness/c20.cpp)
+    for i in range(N):
+        u = unit_vec(rng)
+        ax = u if i % 3 else [rf(rng) for _ in range(3)]
+        if i % 17 == 5:
+            ax = [0, 0, 0]
+        if i % 17 == 6:
+            ax = [0, 0, 0]
+            ax[rng.randrange(3)] = rng.choice([1, P - 1, 2])
+        ang = rng.choice([rf(rng), rf(rng), 0, 1, small(rng)])
+        q = unit_quat(rng)
+        if i % 7 == 2:
+            q = [rng.choice([1, P - 1]), 0, 0, 0]
+        if i % 7 == 4:
+            q = [rf(rng) for _ in range(4)]
+        if i % 7 == 5:
+            q = [0] + unit_vec(rng)
+        A_, Q_ = fmt(ax + [ang]), fmt(q)
+        cases.append(["qfaa " + A_, "qfaau " + fmt(u + [ang]), "qfrv " + fmt(ax), "m4rotaa " + A_, "m4rotaa " + fmt(u + [ang]), "m4rotv " + fmt(ax),
+                      "qangle " + Q_, "qaxang " + Q_, "qaart " + Q_, "m4axang " + fmt(flat(qmat_ref(q))) if sum(x * x for x in q) % P == 1 else "qangle " + Q_,
+                      "m4rote %s %d %d %d" % (fmt([rf(rng) for _ in range(3)]), rng.randrange(3), rng.randrange(3), rng.randrange(3))])
     # linear systems
     top = 12 if tier == "quick" else 24
     reps = 3 if tier == "quick" else 100
@@ -546,7 +632,7 @@ def gen_float(rng, tier):
             cases.append(c)
     # rotation vectors
     vs = [[0.0, 0.0, 0.0], [math.pi, 0, 0], [0, math.pi, 0], [0, 0, -math.pi], [1e-9, 0, 0], [1e-5, 1e-5, 0], [3.0, 0.5, 0.2]]
-    for i in range(60 if tier == "quick" else 2000):
+    for i in range(400 if tier == "quick" else 6000):
         ax = [rng.gauss(0, 1) for _ in range(3)]
         n = math.sqrt(sum(x * x for x in ax)) or 1.0
         ang = rng.choice([rng.uniform(0, math.pi), rng.uniform(0, 1e-3), math.pi - rng.uniform(0, 1e-3), math.pi])
